@@ -51,6 +51,13 @@ def instances(tier, seed):
     for inst in c11.instances(tier, seed):
         inst = dict(inst)
         yield inst
+    for name, tset, N, motifs in COLLISION_SCENARIOS:
+        placement = [[k, list(vs)] for k, vs in motifs]
+        state, names = c11.initial_state(tset, N, placement)
+        for tname, _ in target_variants(state, names, tier, False):
+            if tname.startswith(("removed", "zeroed")) and "+" not in tname:
+                yield {"kind": "collision", "name": name, "tset": tset, "N": N, "placement": placement,
+                       "target": tname}
     for i, sc in enumerate(DTMC_SCENARIOS):
         if tier not in sc[4]:
             continue
@@ -61,6 +68,18 @@ def instances(tier, seed):
             for sl in ((1, 2) if (i == 0 or (tier == "thorough" and i < 3)) else (1,)):
                 yield {"kind": "dtmc", "name": sc[0], "tset": sc[1], "N": sc[2],
                        "placement": [[k, list(vs)] for k, vs in sc[3]], "target_kind": kind, "search_limit": sl}
+
+
+# Two-topology scenarios in which the SAME excess-key tuple occurs in both topologies' matrices with different
+# support: classes Q=(0,2), P=(1,1), R=(2,0) (blue, red); blue excess of P = red excess of Q = (0,1), blue excess of
+# R = red excess of P = (1,0), so the blue pairing P-R and the red pairing Q-P share the key ((0,1),(1,0)).
+# Explored from the initial state with d = 2 (a complete rejected proposal followed by a second proposal in the
+# same call), which is what exposes state carried from one topology's proposal into another's.
+COLLISION_SCENARIOS = [
+    ("key-collision-blue-red-10", "blue+red", 10,
+     [(1, (0, 1)), (1, (0, 2)), (1, (1, 2)), (1, (3, 4)), (1, (5, 6)),
+      (0, (3, 5)), (0, (4, 6)), (0, (7, 8)), (0, (7, 9)), (0, (8, 9))]),
+]
 
 
 def unused_pairs(state, names):
@@ -443,8 +462,30 @@ def run_dtmc(inst, tier, res):
                       f"ratio reaches {ref_f[k][a]:.6f})", desc)
 
 
+def run_collision(inst, tier, res):
+    desc = {k: inst[k] for k in ("name", "tset", "N", "placement")}
+    state, names = c11.initial_state(inst["tset"], inst["N"], inst["placement"])
+    target = dict(target_variants(state, names, tier, False))[inst["target"]]
+    r = mcmc.explore_step(state, state, mcmc.motif_shapes(state), names, target, 2, max_leaves=5_000_000,
+                          recheck_every=23)
+    res.executions += r.leaves
+    res.revalidated += r.rechecked
+    res.states += 1
+    res.transitions += len(r.successors)
+    res.count("collision_scenario_runs", r.leaves)
+    report(res, desc, r.problems, inst["target"])
+    if r.successors:
+        res.nontrivial.add((inst["name"], inst["target"]))
+        res.flags.add("collision-scenario")
+    res.samples.append({"scenario": inst["name"], "target": inst["target"], "deviation_bound": 2,
+                        "runs": r.leaves, "accepted_swap_successors": len(r.successors)})
+
+
 def run_instance(inst, tier):
     res = Result()
+    if inst["kind"] == "collision":
+        run_collision(inst, tier, res)
+        return res
     if inst["kind"] == "box":
         run_box(inst, tier, res)
     elif inst["kind"] == "scenario":
@@ -457,7 +498,8 @@ def run_instance(inst, tier):
 def finalize(agg, tier):
     if agg.violations:
         return []
-    out = [f"vacuous exploration: {f} never seen" for f in ("restricted-target", "restriction-removes-a-swap")
+    out = [f"vacuous exploration: {f} never seen" for f in ("restricted-target", "restriction-removes-a-swap",
+                                                              "collision-scenario")
            if f not in agg.flags]
     if "hook-missing" not in agg.flags:
         for f in ("dtmc-admitted", "dtmc-sensitive"):
